@@ -9,8 +9,8 @@ structurally:
     ignored), the renaming is read off position by position;
  2. otherwise each local gets a feature set (how it is defined: the shape of the right-hand sides assigned to it, the iterables it
     ranges over; how it is used: methods called on it, which calls receive it as which argument, whether it is returned /
-    yielded / awaited) and baseline locals are matched to the most similar current local (mutual best match, similarity
-    >= 0.5, strictly better than the runner-up).
+    yielded / awaited) and baseline locals are matched to the most similar current local (mutual best match, strictly better
+    than the runner-up, similarity >= 0.5 or else the only resemblance at all in both directions).
 
 A baseline local that still exists under its own name is never remapped.  The mapping only renames; it cannot make an
 obligation hold that would not hold for the renamed program.  If a contract needs a local for which no counterpart is found
@@ -173,7 +173,7 @@ def local_mapping(base_fn, cur_fn):
     out = {}
     for n in missing:
         scored = sorted(((sim(fb[n], fc[m]), m) for m in free), reverse=True)
-        if not scored or scored[0][0] < 0.5:
+        if not scored or scored[0][0] <= 0:
             continue
         if len(scored) > 1 and scored[1][0] >= scored[0][0]:
             continue
@@ -182,6 +182,11 @@ def local_mapping(base_fn, cur_fn):
         back = sorted(((sim(fb[k], fc[m]), k) for k in missing), reverse=True)
         if back[0][1] != n or (len(back) > 1 and back[1][0] >= back[0][0]):
             continue
+        if scored[0][0] < 0.5:
+            # a weak resemblance is accepted only when it is the ONLY one in both directions (e.g. `r = yield f(x)` rewritten as
+            # `t = f(x); r2 = yield t`: the defining expression changed shape, the uses did not)
+            if (len(scored) > 1 and scored[1][0] > 0) or (len(back) > 1 and back[1][0] > 0):
+                continue
         out[n] = m
     return out
 
